@@ -12,9 +12,9 @@ def _compact(scn):
             "chunks": scn["chunks"], "ext_threads": len(scn["ext"])}
 
 
-def data_stream(props, name="data-cosim"):
+def data_stream(props, name="data-cosim", tails=False):
     def stream(tier):
-        R0 = C.rng("conc-data")
+        R0 = C.rng("conc-data" + ("-tails" if tails else ""))
         res = Result(name)
         n = {"quick": 250, "search": 1500, "thorough": 12000}[tier]
         batch_lines, owners = [], []
@@ -23,6 +23,9 @@ def data_stream(props, name="data-cosim"):
             seed = R0.getrandbits(48)
             R = random.Random(seed)
             scn = CD.gen_scenario(R, "small" if i % 5 else "large")
+            if tails:
+                scn = CD.add_tail(R, scn)          # the connection ends: close request / EOF / reset / failing write
+                res.distribution["tail_%s" % scn["tail"]] += 1
             SR = random.Random(seed ^ 0x5DEECE66D)
             choices = []
 
